@@ -169,6 +169,9 @@ class State:
         self.stops = []
         self.sink = None
         self.subcache = {}   # (row id, offset id) -> shifted-sequence constant
+        self.defs = set()    # ids of assumptions that define fresh symbols (valid on every path)
+        self.keyterms = []   # ground map-key terms of byte strings seen so far (instantiation candidates)
+        self.keyfacts = []   # assumed facts quantified over map keys: instantiated at every key term seen
 
     def copy(self):
         s = State.__new__(State)
@@ -194,6 +197,9 @@ class State:
         s.stops = list(self.stops)
         s.sink = None
         s.subcache = dict(self.subcache)
+        s.defs = set(self.defs)
+        s.keyterms = list(getattr(self, 'keyterms', []))
+        s.keyfacts = list(getattr(self, 'keyfacts', []))
         return s
 
     def with_sink(self, sink):
@@ -205,14 +211,21 @@ class State:
         return s
 
     # ---- assumptions
-    def assume(self, f):
+    def assume(self, f, definitional=False):
         if z3.is_true(f):
             return
         sink = getattr(self, 'sink', None)
         if sink is not None and sink is not self:
-            sink.assume(f)
+            try:
+                sink.assume(f, definitional)
+            except TypeError:
+                sink.assume(f)
             return
         fid = f.get_id()
+        if definitional:
+            if not hasattr(self, 'defs'):
+                self.defs = set()
+            self.defs.add(fid)
         if fid in self.assumed_ids:
             return
         self.assumed_ids.add(fid)
@@ -302,8 +315,14 @@ class State:
                 self.assume(z3.And(t >= rng[0], t <= rng[1]))
         elif kind == 'ref':
             if self.cx.types.kind(role[1]) == 'ptr':
-                # pointers may also be (negative) handles of interior pointers
-                self.assume(t <= (self.alloc0 if known_old else self.frontier))
+                # pointers may also be (negative) handles of interior pointers; the object a
+                # pointer points into (ptrbase) is bounded like a plain reference, so that pointers
+                # into objects allocated later are different from every older pointer value
+                bound = self.alloc0 if known_old else self.frontier
+                self.assume(t <= bound)
+                from . import ops as _ops
+                pb = _ops.uf('ptrbase', I, I)
+                self.assume(z3.And(pb(t) <= bound, z3.Implies(t >= 0, pb(t) == t)))
             else:
                 self.assume(z3.And(t >= 0, t <= (self.alloc0 if known_old else self.frontier)))
         elif kind == 'len':
